@@ -137,6 +137,22 @@ inline void finish(mc::Case & c, CaseAcc & acc, Sheet<S> & s, const char * what,
 }
 
 // ------------------------------------------------------------------ the parts' own operations
+// ------------------------------------------------------------------ groups without Hessians
+/// Galilei and SE_K_3 implement no d2r_exp / d2r_expinv; a Bundle with such a member has none either (the Hessian clause
+/// of the statement is vacuous for it; everything else is judged).
+template<typename P>
+struct HasHess : std::true_type
+{};
+template<typename S>
+struct HasHess<smooth::Galilei<S>> : std::false_type
+{};
+template<typename S, int K>
+struct HasHess<smooth::SE_K_3<S, K>> : std::false_type
+{};
+template<typename... Ps>
+struct HasHess<smooth::Bundle<Ps...>> : std::bool_constant<(HasHess<Ps>::value && ...)>
+{};
+
 template<typename P>
 struct Ops
 {
@@ -252,6 +268,17 @@ struct Ops
   C06_TANOP(dr_expinv, TM)
   C06_TANOP(dl_exp, TM)
   C06_TANOP(dl_expinv, TM)
+#undef C06_TANOP
+#define C06_TANOP(NAME, RET)              \
+  static RET NAME(const Ta & a)           \
+  {                                       \
+    if constexpr (I::vec)                 \
+      return smooth::NAME<P>(a);          \
+    else if constexpr (HasHess<P>::value) \
+      return P::NAME(a);                  \
+    else                                  \
+      return RET{};                       \
+  }
   C06_TANOP(d2r_exp, He)
   C06_TANOP(d2r_expinv, He)
 #undef C06_TANOP
@@ -664,8 +691,10 @@ struct Fam<smooth::Bundle<Ps...>>
     });                                                                                   \
     finish(c, acc, s, #NAME, #NAME " zero outside the part blocks", false);               \
   }
-      C06_HESS(d2r_exp)
-      C06_HESS(d2r_expinv)
+      if constexpr (HasHess<B>::value) {
+        C06_HESS(d2r_exp)
+        C06_HESS(d2r_expinv)
+      }
 #undef C06_HESS
       c.outcome(acc.bitwise ? "bitwise" : "within-2ulp");
     });
